@@ -424,6 +424,21 @@ pub fn run_scenario(
             _ => panic!("unknown witness deviation {}", wk),
         }
         let mut witness = RangeWitness::init(openings.iter().map(|(v, r)| CommitmentOpening::new(*v, r.clone())).collect());
+        // the second run of a same-commitment pair REUSES a witness object: it is initialised with the first run's openings and then
+        // its (public) openings are replaced by this run's
+        if mb["wshift"].as_u64().unwrap_or(0) == 1 && t >= 2 && wk == "ok" {
+            let orig: Vec<CommitmentOpening> = (0..m).map(|j| {
+                let mut r = blinds[j].clone();
+                r[t - 2] -= Scalar::ONE;
+                r[t - 1] += Scalar::ONE;
+                CommitmentOpening::new(vals[j], r)
+            }).collect();
+            if let (Ok(w0), Ok(w)) = (RangeWitness::init(orig), witness.as_ref()) {
+                let mut w0 = w0;
+                w0.openings = w.openings.clone();
+                witness = Ok(w0);
+            }
+        }
         // a witness edited AFTER construction (public fields): one opening gets a surplus blinding factor, or loses all of them
         if let Ok(w) = witness.as_mut() {
             match wk {
@@ -1117,6 +1132,22 @@ pub fn run_case(c: &Value, seed: u64, idx: u64) -> (String, Option<String>) {
                     }
                 }
                 (okerr(&r).into(), extra)
+            },
+            "commit_values" | "mask_values" => {
+                let n = if op == "commit_values" { u("b") } else { u("len") };
+                let (zt, hv) = (u("zt"), c["hv"].as_bool().unwrap());
+                let bl: Vec<Scalar> = (0..n).map(|i| if i + zt >= n { Scalar::ZERO } else if hv { -Scalar::ONE - Scalar::from(i as u64) } else { hash_scalar(&[b"values", &(i as u64).to_le_bytes()]) }).collect();
+                if op == "commit_values" {
+                    let r = pedersen_std(u("t")).commit(&Scalar::from(12345u64), &bl);
+                    (okerr(&r).into(), None)
+                } else {
+                    let r = ExtendedMask::assign(ExtensionDegree::try_from(u("t")).unwrap(), bl.clone());
+                    let extra = match &r {
+                        Ok(mk) if mk.blindings().ok() != Some(bl) => Some("mask blindings differ from the arguments".to_string()),
+                        _ => None,
+                    };
+                    (okerr(&r).into(), extra)
+                }
             },
             "commit_edited" => {
                 // a generator record edited after construction (its fields are public): `extra` surplus blinding bases beyond the
